@@ -434,6 +434,11 @@ pub const FIXED: &[(&str, &str)] = &[
     ("str-find-huge", "fn main()->bool{ (\"ab\" * 100000).find(\"ba\" * 50000 + \"c\").has_value() == false }"),
     ("str-replace-huge", "fn main()->int{ (\"a\" * 100000).replace(\"a\", \"bb\" * 1000).len() }"),
     ("str-split-huge", "fn main()->int{ (\"a,\" * 100000).split(\",\").len() }"),
+    ("regex-quadratic-scan", "fn main()->bool{ regex(\"a*b\").search(\"a\" * 100000).has_value() }"),
+    ("regex-many-dead-offsets", "fn main()->bool{ regex(\"a\").search(\"b\" * 300000).has_value() }"),
+    ("regex-nested-quantifier", "fn main()->bool{ regex(\"(a*)*b\").search(\"a\" * 100000).has_value() }"),
+    ("regex-match-huge", "fn main()->bool{ regex(\"a*b\").match(\"a\" * 100000).has_value() }"),
+    ("regex-search-late-start", "fn main()->bool{ regex(\"a*b\").search(\"a\" * 100000, 50000).has_value() }"),
     ("nth-backwards-huge", "fn main()->bool{ range(10 ** 12).nth(0 - 1, (v_x: int)->{v_x < 0}).has_value() }"),
     ("nth-backwards-native-predicate", "fn main()->bool{ range(10 ** 12).nth(0 - 1, is_error{int}).has_value() }"),
     ("last-native-predicate", "fn main()->bool{ range(10 ** 12).last(is_error{int}).has_value() }"),
@@ -521,6 +526,7 @@ impl LiveJob {
             for (label, call) in texts {
                 let mut sc = Scenario::standard(&crate::docsig::forcing_program(&call, &c.ret), live_limits());
                 sc.ops = live_ops();
+                sc.perms = [Some(true); 6];
                 sc.label = format!("C10 live doc-adversarial {label} {call}");
                 scenarios.push(sc);
             }
@@ -538,6 +544,8 @@ impl LiveJob {
             .map(|(n, text)| {
                 let mut sc = Scenario::standard(text, live_limits());
                 sc.ops = live_ops();
+                // every effect allowed (the doubles are simulated): regex, random and sleep paths are reachable
+                sc.perms = [Some(true); 6];
                 sc.label = format!("C10 live fixed:{n}");
                 if nosize {
                     // the search and call budgets alone must bound the work of these entries
